@@ -368,6 +368,9 @@ fn run_one(out: &mut UnitOut, chain: &[Ctx], p: &Payload) {
         }
         let mut keys = vec![key.clone()];
         keys.extend(extra);
+        // construct-level key for known findings: payload kind + failure class (+ whether the
+        // payload sits in an operand block, which is what a jump out of an operand needs)
+        keys.push(format!("c03:{:?}:{}{}", p.kind, cls, if chain.contains(&Operand) { ":in-operand" } else { "" }));
         out.violation(
             keys,
             format!("{name}: {what}"),
